@@ -380,7 +380,8 @@ def crashed(r):
     """A panic / abort / signal death of the shell itself."""
     if r.rc is not None and r.rc < 0:
         return "signal %d" % (-r.rc)
-    if b"panicked at" in r.err or r.rc == 101:
+    # (exit status 101 alone is not a panic: a command may legitimately exit 101)
+    if b"panicked at" in r.err:
         m = r.err.split(b"panicked at", 1)
         loc = m[1].split(b"\n", 2)[0].strip().decode("utf-8", "replace") if len(m) > 1 else "?"
         msg = m[1].split(b"\n", 2)[1].strip().decode("utf-8", "replace")[:120] if len(m) > 1 and m[1].count(b"\n") >= 2 else ""
@@ -548,3 +549,37 @@ def get_seed():
         return int(os.environ.get("VERIF_SEED", "1"))
     except ValueError:
         return 1
+
+
+# ------------------------------------------------------------------ hermetic
+
+_REAL = None
+
+
+def real_commands():
+    """names of executables in the directories cicada always puts in front of PATH"""
+    global _REAL
+    if _REAL is None:
+        names = set()
+        for d in ("/usr/local/sbin", "/usr/local/bin", "/usr/sbin", "/usr/bin", "/sbin", "/bin"):
+            try:
+                names.update(os.listdir(d))
+            except OSError:
+                pass
+        _REAL = names
+    return _REAL
+
+
+def hermetic(line):
+    """rewrite every word of a generated line that happens to be the name of a real program (e.g. a helper
+    name cut down to `vp`, `w`, `ar`, `[`) so that random lines can only start helpers, builtins or nothing"""
+    import re
+    real = real_commands()
+
+    def fix(m):
+        w = m.group(0)
+        return ("Q" + w) if w in real else w
+    line = re.sub(r"[A-Za-z0-9_.+\-]+", fix, line)
+    # `[` alone in command position is /usr/bin/[
+    line = re.sub(r"(^|[;&|(`]\s*)\[(?=\s|$)", r"\1Q[", line)
+    return line
